@@ -10,8 +10,8 @@ import (
 
 // suite wska (C17 keep-alive): one healthy idle connection between the real ws.Client and the real ws.Server for
 // every ping/pong configuration on either side, and dead peers.
-//   k <clientPingPeriod> <clientPongWait> <serverPingWait> <serverPingPeriod> <serverPongWait>   (ms; periods 0|25, waits 0|70)
-//        -> alive | dropped      after 330 ms of idleness
+//   k <clientPingPeriod> <clientPongWait> <serverPingWait> <serverPingPeriod> <serverPongWait>   (ms; periods 0|40, waits 0|160)
+//        -> alive | dropped      after 600 ms of idleness
 //   d <serverPingWait> <serverPingPeriod> <serverPongWait>     a raw peer that never reads, never pings
 //        -> detected | kept | late
 
@@ -30,8 +30,8 @@ func (wska) Run(ops []string, emit func(string)) { runIsolated("wska", ops, emit
 
 func (wska) Gen(r *rand.Rand, n int) []string {
 	var out []string
-	p := func() int { return []int{0, 25}[r.Intn(2)] }
-	w := func() int { return []int{0, 70}[r.Intn(2)] }
+	p := func() int { return []int{0, 40}[r.Intn(2)] }
+	w := func() int { return []int{0, 160}[r.Intn(2)] }
 	for i := 0; i < n; i++ {
 		if r.Intn(4) == 0 {
 			out = append(out, fmt.Sprintf("d %d %d %d", w(), p(), w()))
@@ -73,7 +73,7 @@ func wskaOne(f []string) string {
 		select {
 		case <-dropped:
 			return "dropped"
-		case <-time.After(330 * time.Millisecond):
+		case <-time.After(600 * time.Millisecond):
 		}
 		for _, e := range c.take() {
 			if e.kind == "disc" {
@@ -97,7 +97,7 @@ func wskaOne(f []string) string {
 		waitCond(time.Second, func() bool { return c.size() >= 1 })
 		c.take()
 		t0 := time.Now()
-		got := waitCond(450*time.Millisecond, func() bool {
+		got := waitCond(900*time.Millisecond, func() bool {
 			for _, e := range c.snapshot() {
 				if e.kind == "disc" {
 					return true
@@ -108,7 +108,7 @@ func wskaOne(f []string) string {
 		if !got {
 			return "kept"
 		}
-		if time.Since(t0) > 70*time.Millisecond+150*time.Millisecond {
+		if time.Since(t0) > 160*time.Millisecond+400*time.Millisecond {
 			return "late"
 		}
 		return "detected"
